@@ -510,10 +510,11 @@ def _sync_job_workspaces(
     src, dst, strategy, exclude, copy, copytree, recursive=True, deep=False, subdir=""
 ):
     """Synchronize two job workspaces file by file, following the provided strategy."""
+    # ignore=[]: dircmp skips filecmp.DEFAULT_IGNORES ("tags", ".git", "__pycache__", ...) by default
     if deep:
-        diff = _dircmp_deep(src.fn(subdir), dst.fn(subdir))
+        diff = _dircmp_deep(src.fn(subdir), dst.fn(subdir), ignore=[])
     else:
-        diff = dircmp(src.fn(subdir), dst.fn(subdir))
+        diff = dircmp(src.fn(subdir), dst.fn(subdir), ignore=[])
 
     for fn in diff.left_only:
         if exclude and any([re.match(p, fn) for p in exclude]):
